@@ -1,17 +1,40 @@
 PROP = {
-    "kani_groups": ["hk_emit_min", "hk_emit_std"],
+    "kani_groups": ["hk_emit_min", "hk_emit_std", "hk_pathmap"],
     "smt": [],
-    "technique": "bounded model checking (Kani/CBMC) of MinLevelFilter against the documented lenient level grammar",
+    "technique": "bounded model checking (Kani/CBMC) of MinLevelFilter against the documented lenient level grammar; of the real MinLevelPathMap "
+                 "(registration + lookup) against a linear-scan reference over enumerated concrete registration sequences with symbolic levels",
     "functions": ["emit::level::{MinLevelPathMap::{new, default_min_level, min_level, matches}, PathNode}, emit_core::path::{Path::segments, Segments}",
-                  "emit::level::{MinLevelFilter::matches, treat_unleveled_as, Level::from_str, parse, Level as FromValue}"],
+                  "emit::level::{MinLevelFilter::matches, treat_unleveled_as, Level::from_str, parse, Level as FromValue}",
+                  "hk_pathmap (emit built with `alloc` only): emit::level::alloc_support::{MinLevelPathMap::<L>::{new, default_min_level, min_level}, "
+                  "<MinLevelPathMap<L> as Filter>::matches, PathNode<L>}, <Option<&MinLevelFilter<L>> as Filter>::matches, MinLevelFilter::<L>::{new, matches}, "
+                  "Props::pull for Empty and (&str, i32), at L = HL (harness level type: u8 newtype, Ord/Default/Copy, FromValue ignores the value and returns "
+                  "the harness-controlled event level; Default returns the harness-controlled unleveled level) and at L = emit::Level (unleveled events only); "
+                  "emit_core::path::{Path::{new_raw, new_owned_raw, new_ref_raw, segments}, Segments::next}, emit_core::str::Str::{new, new_ref, new_owned, by_ref, "
+                  "get, get_static, to_owned, cmp, drop}; std's real Vec::{insert, index, index_mut}, RawVec growth, slice::binary_search_by_key, str/slice Ord (memcmp)"],
     "bounds": "level property absent / typed (4 levels) / text of <= 4 bytes over {i,I,n,f,o,d,b,g,e,E,r,w,W,a,1,blank,(,0x01} / non-level value; "
               "minimum and default any level; numeric MinLevelFilter<u8> over all u8; "
               "MinLevelPathMap: 6 quick + 2 thorough families of ONE registered ONE-segment path with any level, a default of any level in some families, a concrete "
               "event module (exact, descendant, prefix-sharing sibling, sibling child, registered name after an unregistered segment, root mismatch, unrelated, deep "
-              "descendant) and any typed event level; two-segment registrations and two registrations (nested rules, repeated registration, registration order) "
-              "exist as harnesses but blow the SAT instance past 26 GB: NOT decided",
-    "outside": "level texts longer than 4 bytes (6 in the C15 parser harness); nested rules / repeated registrations / registration order in the path map (do not fit), paths outside the written families (symbolic paths: str::split's TwoWaySearcher does not finish)",
-    "stubs": ["Value::parse -> assert-unreachable in the path-map harnesses (the event level there is a typed Level: the text fallback of Level::from_value is dead; the lenient text grammar is decided by c17_q_min_level_filter)", "Path::segments: std str::split(\"::\") -> hand-written scanner with the same semantics (stubs/split_scanner.toml; std trusted, TwoWaySearcher does not finish under CBMC)"],
-    "assumptions": ["text is valid UTF-8 (ASCII alphabet)"],
+              "descendant) and any typed event level (L = Level, std build). "
+              "NESTED RULES / ORDER / REPEATS (group hk_pathmap, c17_[qtw]_nest_*): registered paths from the pool {a, a::b, a::bb, a::b::c, aa, b} "
+              "(nested chain of depth 3, prefix-sharing siblings at depth 1 and 2, unrelated root; lexicographic sibling order a < aa < b differs from their order by "
+              "length), every registration sequence enumerated as a CONCRETE sequence, all of the following with ANY u8 minimum level per registration, map default "
+              "absent or ANY u8, event level ANY u8, and EVERY event module of {a, a::b, a::bb, a::b::c, aa, b, a::b::c::d, a::x, c} looked up after each sequence: "
+              "quick = all 36 ordered pairs incl. the 6 repeats (leveled events: level through Props::pull/FromValue) + every order of the chain a/a::b/a::b::c and of "
+              "the roots a/aa/b (unleveled events: level through L::default()) + 3 pairs with OWNED registered paths (trie keys copied to Box<str>) and BORROWED "
+              "event modules + 3 pairs at L = emit::Level (minimums/default any of the 4 levels, unleveled event = Info); thorough adds ALL 216 ordered triples, every "
+              "order of the 4 registrations a/a::b/a::bb/a::b::c and a/aa/b/a::b, all 36 pairs with owned/borrowed paths and all 36 pairs at L = Level. "
+              "Reference = linear scan: longest registered path p with module == p or module starting with p + \"::\", the LAST registration of p; none -> default if set -> accept",
+    "outside": "level texts longer than 4 bytes (6 in the C15 parser harness); path maps with more than 3 registrations (4 in two thorough families), paths outside the "
+               "pool (segments longer than 2 bytes, depth > 3 registered / > 4 looked up, more than 3 siblings under one node, symbolic path text: shapes are enumerated, "
+               "not symbolic — symbolic presence/order of two registrations merges heap shapes and ran out of 12 GB); typed/textual event levels together with nested "
+               "rules at L = emit::Level (value-bag's downcast makes the trie symbolic for symex: a pair did not finish symex in 9 min / 5.8 GB; typed and textual "
+               "levels are decided on one-registration maps and on MinLevelFilter alone, the trie walk is generic in L); min_by_path_filter / FromIterator (thin loops over min_level)",
+    "stubs": ["Value::parse -> assert-unreachable in the path-map harnesses (the event level there is a typed Level: the text fallback of Level::from_value is dead; the lenient text grammar is decided by c17_q_min_level_filter)", "Path::segments: std str::split(\"::\") -> hand-written scanner with the same semantics (stubs/split_scanner.toml; std trusted, TwoWaySearcher does not finish under CBMC; also in hk_pathmap)",
+              "hk_pathmap: no Kani stubs. The level type parameter L is instantiated with the harness type HL (see functions): the value-bag cast of the event's level value is not "
+              "explored there. CBMC runs with --max-field-sensitivity-array-size 1024 (symex precision only: lets constant propagation see through Vec buffers)"],
+    "assumptions": ["text is valid UTF-8 (ASCII alphabet)", "hk_pathmap: none on HL harnesses (all levels any u8); L = Level harnesses: level indices < 4"],
     "timeout": {"quick": 700, "thorough": 3600},
+    # hk_pathmap harnesses: 60-110 s each measured with 8-10 solvers running (20-85 s alone), < 2 GB
+    "timeouts": [(r"_nest_", 400, 900)],
 }
